@@ -1,12 +1,22 @@
 import OasisModel.Proto
 import OasisModel.NodeDB.Spec
 import OasisModel.NodeDB.Badger
+import OasisModel.NodeDB.Crash
 /-
 Driver of the node-database models (properties C06 / C07), executable `om_nodedb`.
 The first input line selects the sub-mode:
 
   mode spec      the abstract contract `Spec` as a checker with witness (dbdrv)
   mode badger    the bookkeeping model `Badger` of the badger backend as an exact oracle (dbdrv)
+
+### mode crash — crashdrv (property C07)
+  plan <backend> <commit|finalize|prune> <res> <facts|-> <boundary,..|->   boundaries the real op passed
+  crash <backend> <kind> <facts|-> <boundary index> <class>              what was observed after a crash there
+`facts`: `exists=0|1` (commit: the root was already there), `loneio=0|1` (prune). The boundary
+sequence must equal the model's write plan (`Crash.badgerNames` / `Crash.pathbadgerNames`); the
+observed class must be among the ones the model predicts (`Crash.badgerCrashClasses`; for
+pathbadger, which has no bookkeeping model, what the property demands: old/mid/new with a retry
+that completes, and `new` at the last boundary).
 
 ### mode badger — the REAL badger backend, node level
   commit <t> <v> <sv> <sh> <h> <res> <added h:left.right:embeddedleaf,..|-> <removed h,..|->   PutNode / RemoveNodes as issued
@@ -345,10 +355,38 @@ def badgerStep (st : BSt) (line : String) : BSt × String :=
   | [] => (st, "ok")
   | _ => fail "bad-op"
 
+/-! ### mode crash -/
+
+def crashStep (line : String) : String :=
+  match words line with
+  | ["plan", backend, kind, res, facts, seq] =>
+    let got := if seq == "-" then [] else seq.splitOn ","
+    let want :=
+      if backend == "badger" then Crash.badgerNames kind (res != "ok" || facts == "exists=1")
+      else Crash.pathbadgerNames kind res (facts == "exists=1")
+    if got == want then "ok"
+    else s!"DIVERGE plan-mismatch:{backend}.{kind} real operation passed {got}, the model's plan is {want}"
+  | ["crash", backend, kind, facts, bi, cls] =>
+    match bi.toNat? with
+    | none => "DIVERGE bad-op"
+    | some bi =>
+      if backend == "badger" then
+        let allowed := Crash.badgerCrashClasses kind bi (facts == "loneio=1")
+        if allowed.contains cls then "ok"
+        else s!"DIVERGE crash-class-mismatch:{backend}.{kind}.{bi} observed {cls}, model predicts {allowed}"
+      else
+        let n := (Crash.pathbadgerNames kind "ok" false).length - (if kind == "commit" then 2 else 0)
+        let lastB := bi + 1 == (if kind == "commit" then n + 2 else n)
+        if (lastB && cls == "new") || (!lastB && (cls.endsWith "+retry-ok" || cls == "new")) then "ok"
+        else s!"DIVERGE crash-class-mismatch:{backend}.{kind}.{bi} observed {cls}"
+  | [] => "ok"
+  | _ => "DIVERGE bad-op"
+
 inductive Mode where
   | unset
   | spec (st : SpecSt)
   | badger (st : BSt)
+  | crash
 
 def step (m : Mode) (line : String) : Mode × String :=
   match m with
@@ -356,9 +394,11 @@ def step (m : Mode) (line : String) : Mode × String :=
     match words line with
     | ["mode", "spec"] => (.spec {}, "ok")
     | ["mode", "badger"] => (.badger {}, "ok")
+    | ["mode", "crash"] => (.crash, "ok")
     | _ => (.unset, "DIVERGE bad-mode")
   | .spec st => let (st', out) := specStep st line; (.spec st', out)
   | .badger st => let (st', out) := badgerStep st line; (.badger st', out)
+  | .crash => (.crash, crashStep line)
 
 def main : IO Unit := loop step .unset
 
